@@ -60,8 +60,8 @@ End GReplay.
 
 Section Chain.
   Context {T : Type} `{Num T}.
-  Variable seq : T -> T -> bool.
-  Hypothesis seq_eq : forall a b, seq a b = true -> a = b.
+  Variable xeq : T -> T -> bool.
+  Hypothesis xeq_eq : forall a b, xeq a b = true -> a = b.
   Variable teq : T -> T -> bool.          (* the ghost equality of the engine: arbitrary *)
 
   Notation RC := (rcache (BIn T) (ChildOut T)).
@@ -78,19 +78,19 @@ Section Chain.
   Notation brun := (grun_memo (BNode T) (BIn T) (ChildOut T) (BLayout T) RC).
   Notation btrace := (apply_trace (BNode T) (BIn T) (ChildOut T) (BLayout T) RC).
 
-  Lemma ms_eqb_with_eq (a b : MarginSet T) : ms_eqb_with seq a b = true -> a = b.
+  Lemma ms_eqb_with_eq (a b : MarginSet T) : ms_eqb_with xeq a b = true -> a = b.
   Proof.
     destruct a as [a1 a2], b as [b1 b2]. unfold ms_eqb_with. cbn. intros E. apply andb_prop in E. destruct E as [E1 E2].
-    apply seq_eq in E1. apply seq_eq in E2. subst. reflexivity.
+    apply xeq_eq in E1. apply xeq_eq in E2. subst. reflexivity.
   Qed.
 
-  Lemma cout_eqb_with_eq (a b : ChildOut T) : cout_eqb_with seq a b = true -> a = b.
+  Lemma cout_eqb_with_eq (a b : ChildOut T) : cout_eqb_with xeq a b = true -> a = b.
   Proof.
     destruct a as [[a1 a2] [a3 a4] a5 a6 a7], b as [[b1 b2] [b3 b4] b5 b6 b7]. unfold cout_eqb_with. cbn. intros E.
     repeat (apply andb_prop in E; destruct E as [E ?]).
     repeat match goal with
-           | [ X : seq _ _ = true |- _ ] => apply seq_eq in X
-           | [ X : ms_eqb_with seq _ _ = true |- _ ] => apply ms_eqb_with_eq in X
+           | [ X : xeq _ _ = true |- _ ] => apply xeq_eq in X
+           | [ X : ms_eqb_with xeq _ _ = true |- _ ] => apply ms_eqb_with_eq in X
            | [ X : Bool.eqb _ _ = true |- _ ] => apply eqb_prop in X
            end.
     subst. reflexivity.
@@ -169,7 +169,7 @@ Section Chain.
   Qed.
 
   (* ---- one level *)
-  Lemma level_step n kid i lvl oc nq o : level_out seq n kid i lvl oc nq = Some o ->
+  Lemma level_step n kid i lvl oc nq o : level_out xeq n kid i lvl oc nq = Some o ->
     bi_mode lvl = PerformLayout -> bi_mode i = PerformLayout -> bn_is_none n = false ->
     forall f c c1 l, gstyle c = kid -> memo (S f) c lvl = Some (oc, c1) -> gcache c1 = bstore bnew lvl oc ->
       exists c2, memo (S (S f)) (gnode n bnew l stats0 [c]) i = Some (o, gnode n (bstore bnew i o) l (st_eval 0 stats0) [c2])
@@ -177,12 +177,12 @@ Section Chain.
   Proof.
     intros HL Hl Hi Hn f c c1 l Hs Hm Hc. unfold level_out in HL.
     destruct (areplay _ _ _ (repeat oc nq) (lalg n kid i)) as [[o' tr]|] eqn:Er; [|discriminate].
-    destruct (trace_ok seq lvl oc tr && Nat.eqb (count_q _ _ _ tr) nq) eqn:Eok; [|discriminate]. injection HL as ->.
+    destruct (trace_ok xeq lvl oc tr && Nat.eqb (count_q _ _ _ tr) nq) eqn:Eok; [|discriminate]. injection HL as ->.
     apply andb_prop in Eok. destruct Eok as [Etr Ecnt]. apply Nat.eqb_eq in Ecnt.
     pose proof (areplay_answers _ _ _ oc _ _ _ _ Er) as Ha.
     destruct tr as [|[c0 i1 o1|c0 l0] rest]; try discriminate. cbn [trace_ok] in Etr.
     apply andb_prop in Etr. destruct Etr as [Etr Hlater]. apply andb_prop in Etr. destruct Etr as [Hc0 Hi1].
-    apply Nat.eqb_eq in Hc0. apply (bin_eqb_with_eq seq seq_eq) in Hi1. subst c0 i1.
+    apply Nat.eqb_eq in Hc0. apply (bin_eqb_with_eq xeq xeq_eq) in Hi1. subst c0 i1.
     inversion Ha as [|e0 r0 Ae Ar]; subst.
     destruct (fold_apply_counts rest c1) as (A & B & C').
     exists (fold_left (apply_ev teq) rest c1). split; [|split].
@@ -209,27 +209,27 @@ Section Chain.
   Lemma is_some_b_ex {A : Type} (x : option A) : is_some_b x = true -> exists o, x = Some o.
   Proof. destruct x; intros E; [eauto|discriminate]. Qed.
   Lemma fix_spec (x : option (ChildOut T)) oB :
-    match x with Some o => cout_eqb_with seq o oB | None => false end = true -> x = Some oB.
+    match x with Some o => cout_eqb_with xeq o oB | None => false end = true -> x = Some oB.
   Proof. destruct x as [o|]; intros E; [|discriminate]. f_equal. apply cout_eqb_with_eq. exact E. Qed.
   Lemma o_blk_spec mix k nq :
-    is_some_b (level_out seq (blkn mix) leafn (lvl_in mix k) (lvl_in mix k) (o_leaf mix k) nq) = true ->
-    level_out seq (blkn mix) leafn (lvl_in mix k) (lvl_in mix k) (o_leaf mix k) nq = Some (o_blk seq mix k nq).
+    is_some_b (level_out xeq (blkn mix) leafn (lvl_in mix k) (lvl_in mix k) (o_leaf mix k) nq) = true ->
+    level_out xeq (blkn mix) leafn (lvl_in mix k) (lvl_in mix k) (o_leaf mix k) nq = Some (o_blk xeq mix k nq).
   Proof.
-    unfold o_blk. generalize (level_out seq (blkn mix) leafn (lvl_in mix k) (lvl_in mix k) (o_leaf mix k) nq).
+    unfold o_blk. generalize (level_out xeq (blkn mix) leafn (lvl_in mix k) (lvl_in mix k) (o_leaf mix k) nq).
     intros [o|] E; [reflexivity|discriminate].
   Qed.
 
-  Lemma family_body_facts blk lvl rin oL oB nq nqr : family_ok_body seq blk lvl rin oL oB nq nqr = true ->
+  Lemma family_body_facts blk lvl rin oL oB nq nqr : family_ok_body xeq blk lvl rin oL oB nq nqr = true ->
     bi_mode lvl = PerformLayout /\ bi_mode rin = PerformLayout /\ bn_is_none blk = false /\ bn_is_none (@leafn T _) = false /\
     bl_mcalls leafn [] lvl = 1%N /\
-    is_some_b (level_out seq blk leafn lvl lvl oL nq) = true /\
-    level_out seq blk blk lvl lvl oB nq = Some oB /\
-    (exists o, level_out seq blk leafn rin lvl oL nqr = Some o) /\
-    (exists o, level_out seq blk blk rin lvl oB nqr = Some o).
+    is_some_b (level_out xeq blk leafn lvl lvl oL nq) = true /\
+    level_out xeq blk blk lvl lvl oB nq = Some oB /\
+    (exists o, level_out xeq blk leafn rin lvl oL nqr = Some o) /\
+    (exists o, level_out xeq blk blk rin lvl oB nqr = Some o).
   Proof.
     unfold family_ok_body.
-    generalize (level_out seq blk leafn lvl lvl oL nq) (level_out seq blk blk lvl lvl oB nq) (level_out seq blk leafn rin lvl oL nqr)
-               (level_out seq blk blk rin lvl oB nqr) (bl_mcalls leafn [] lvl) (bn_is_none blk) (bn_is_none (@leafn T _)).
+    generalize (level_out xeq blk leafn lvl lvl oL nq) (level_out xeq blk blk lvl lvl oB nq) (level_out xeq blk leafn rin lvl oL nqr)
+               (level_out xeq blk blk rin lvl oB nqr) (bl_mcalls leafn [] lvl) (bn_is_none blk) (bn_is_none (@leafn T _)).
     intros x1 x2 x3 x4 m b1 b2 Hk.
     repeat (apply andb_prop in Hk; let X := fresh "X" in destruct Hk as [Hk X]).
     apply is_pl_eq in Hk. apply is_pl_eq in X6. apply negb_true_iff in X5. apply negb_true_iff in X4. apply N.eqb_eq in X3.
@@ -254,27 +254,27 @@ Section Chain.
   Lemma last_counts st (c2 : @brtree T) : n_meas (last (st :: gcounts c2) stats0) = lastmeas c2.
   Proof. destruct c2 as [s c l n k]. reflexivity. Qed.
 
-  Lemma level_out_pos n kid i lvl oc nq o : level_out seq n kid i lvl oc nq = Some o -> 1 <= nq.
+  Lemma level_out_pos n kid i lvl oc nq o : level_out xeq n kid i lvl oc nq = Some o -> 1 <= nq.
   Proof.
     unfold level_out. destruct (areplay _ _ _ (repeat oc nq) (lalg n kid i)) as [[o' tr]|]; [|discriminate].
-    destruct (trace_ok seq lvl oc tr && Nat.eqb (count_q _ _ _ tr) nq) eqn:Eok; [|discriminate]. intros _.
+    destruct (trace_ok xeq lvl oc tr && Nat.eqb (count_q _ _ _ tr) nq) eqn:Eok; [|discriminate]. intros _.
     apply andb_prop in Eok. destruct Eok as [Etr Ecnt]. apply Nat.eqb_eq in Ecnt.
     destruct tr as [|[c0 i1 o1|c0 l0] rest]; try discriminate. unfold count_q in Ecnt. cbn [filter is_eq length] in Ecnt. lia.
   Qed.
 
   Section Family.
     Variables (mix : ChainMix) (k nq nqr : nat).
-    Hypothesis Hok : family_ok_body seq (blkn mix) (lvl_in mix k) (rootin mix k) (o_leaf mix k) (o_blk seq mix k nq) nq nqr = true.
+    Hypothesis Hok : family_ok_body xeq (blkn mix) (lvl_in mix k) (rootin mix k) (o_leaf mix k) (o_blk xeq mix k nq) nq nqr = true.
     Notation lvl := (lvl_in mix k).
-    Notation o_chain d := (match d with O => o_leaf mix k | S _ => o_blk seq mix k nq end).
+    Notation o_chain d := (match d with O => o_leaf mix k | S _ => o_blk xeq mix k nq end).
 
     Lemma family_facts :
       bi_mode lvl = PerformLayout /\ bi_mode (rootin mix k) = PerformLayout /\ bn_is_none (blkn mix) = false /\ bn_is_none (@leafn T _) = false /\
       bl_mcalls leafn [] lvl = 1%N /\
-      level_out seq (blkn mix) leafn lvl lvl (o_leaf mix k) nq = Some (o_blk seq mix k nq) /\
-      level_out seq (blkn mix) (blkn mix) lvl lvl (o_blk seq mix k nq) nq = Some (o_blk seq mix k nq) /\
-      (exists o, level_out seq (blkn mix) leafn (rootin mix k) lvl (o_leaf mix k) nqr = Some o) /\
-      (exists o, level_out seq (blkn mix) (blkn mix) (rootin mix k) lvl (o_blk seq mix k nq) nqr = Some o).
+      level_out xeq (blkn mix) leafn lvl lvl (o_leaf mix k) nq = Some (o_blk xeq mix k nq) /\
+      level_out xeq (blkn mix) (blkn mix) lvl lvl (o_blk xeq mix k nq) nq = Some (o_blk xeq mix k nq) /\
+      (exists o, level_out xeq (blkn mix) leafn (rootin mix k) lvl (o_leaf mix k) nqr = Some o) /\
+      (exists o, level_out xeq (blkn mix) (blkn mix) (rootin mix k) lvl (o_blk xeq mix k nq) nqr = Some o).
     Proof.
       destruct (family_body_facts _ _ _ _ _ _ _ Hok) as (A1 & A2 & A3 & A4 & A5 & A6 & A7 & A8 & A9).
       apply o_blk_spec in A6. repeat split; assumption.
@@ -297,7 +297,7 @@ Section Chain.
         + unfold lastmeas. cbn [EngineReal.gcounts flat_map last st_eval n_meas stats0]. rewrite Hmc. reflexivity.
       - destruct f as [|f]; [lia|]. destruct (IH f) as (c1 & E1 & Hc1 & Hs1 & Hm1); [lia|].
         change (blr_fresh (chain mix (S d))) with (gnode (blkn mix) bnew zero_blay stats0 [blr_fresh (chain mix d)]).
-        assert (HLd : level_out seq (blkn mix) (chain_node mix d) lvl lvl (o_chain d) nq = Some (o_blk seq mix k nq))
+        assert (HLd : level_out xeq (blkn mix) (chain_node mix d) lvl lvl (o_chain d) nq = Some (o_blk xeq mix k nq))
           by (destruct d; [exact HLl|exact HLb]).
         destruct (level_step _ _ _ _ _ _ _ HLd Hl Hl Hnb f _ c1 zero_blay (gstyle_fresh_chain mix d) E1 Hc1) as (c2 & E2 & Hs2 & Hm2).
         eexists. split; [exact E2|]. split; [reflexivity|]. split.
@@ -313,7 +313,7 @@ Section Chain.
     Proof.
       destruct family_facts as (Hl & Hr & Hnb & Hnl & Hmc & HLl & HLb & (oRl & HRl) & (oRb & HRb)).
       intros [|d] Hd; [lia|]. destruct (chain_level d (d + 3)) as (c1 & E1 & Hc1 & Hs1 & Hm1); [lia|].
-      assert (HLd : exists o, level_out seq (blkn mix) (chain_node mix d) (rootin mix k) lvl (o_chain d) nqr = Some o)
+      assert (HLd : exists o, level_out xeq (blkn mix) (chain_node mix d) (rootin mix k) lvl (o_chain d) nqr = Some o)
         by (destruct d; [exists oRl; exact HRl|exists oRb; exact HRb]).
       destruct HLd as (oR & HLd).
       destruct (level_step _ _ _ _ _ _ _ HLd Hl Hr Hnb (d + 3) _ c1 zero_blay (gstyle_fresh_chain mix d) E1 Hc1) as (c2 & E2 & Hs2 & Hm2).
